@@ -76,6 +76,11 @@ def run():
     trace = ctx.run_scenarios(scs, "c01", par=16)
     verdicts, r = ctx.validate(trace, "MonC01")
     ctx.judge(scs, trace, verdicts)
+    # many short-lived streams: write, then Close at once (judged per stream by MonC01m)
+    wtc = U.write_then_close_scenarios("C01", rounds=250 if quick else 1000)
+    trace2 = ctx.run_scenarios(wtc, "c01wtc", par=5)
+    verdicts2, _ = ctx.validate(trace2, "MonC01m")
+    ctx.judge(wtc, trace2, verdicts2)
     ctx.finish(rule="scenarios = environment projections (writes from 2 writers, explicit flushes, ticks, broker acks of any subset/order "
                     "with duplicates and alias grants, close) of random complete behaviours of Upstream.tla, replayed on a real "
                     "iscp upstream against the in-memory broker; distinct scripts only; non-trivial = premise of C01 held (no fault, "
